@@ -23,8 +23,9 @@ type em struct {
 	pre      []string // hoisted binds for the statement being built
 	loops    []loopCtx
 	inSwitch int
-	want     types.Type // expected type for an untyped nil
-	inCond   int        // > 0 inside the right operand of && / ||: no assignments can be hoisted
+	want     types.Type            // expected type for an untyped nil
+	inCond   int                   // > 0 inside the right operand of && / ||: no assignments can be hoisted
+	nilNames map[*types.Var]string // *big.Float parameters compared with nil: name of "the argument was nil"
 }
 
 func isNilIdent(x ast.Expr) bool {
@@ -326,6 +327,13 @@ func (e *em) binary(x *ast.BinaryExpr) string {
 			e.pre = append(e.pre, fmt.Sprintf("let %s : Bool ← (if %s then pure true else %s)", t, l, doBlock(rpre, r)))
 		}
 		return t
+	}
+	if v, neq, ok := floatNilTest(x); ok {
+		// `p == nil` for a *big.Float parameter: was the argument nil? (checkNilFlow, bigfloat.go)
+		if neq {
+			return "(!" + e.nilFlagName(x, v) + ")"
+		}
+		return e.nilFlagName(x, v)
 	}
 	lt := T.info.Types[x.X].Type
 	if isNilIdent(x.X) {
